@@ -1545,3 +1545,11 @@ PARTS = [Names, State, Nitool]
 if __name__ == '__main__':
     if len(sys.argv) == 4 and sys.argv[1] == 'fresh':
         _fresh_main(sys.argv[2], sys.argv[3])
+
+
+# source tie (integrator): make_key_regex_filter and its inner function are TRANSLATED from the Python AST on every run
+# (tools/tables/t_src_filter.py -> Generated/T_src_filter.v) and Filter.Model.key_regex_filter is proved equal to the translation
+COQ_PROPS = (list(COQ_PROPS) if isinstance(COQ_PROPS, (list, tuple)) else [COQ_PROPS]) + ['Props/SRCfilter.v']
+THEOREMS = list(THEOREMS) + ['SRC_key_regex_filter', 'SRC_make_key_regex_filter']
+TABLES = sorted(set(list(globals().get('TABLES') or []) + ['t_src_filter'])) if globals().get('TABLES') else None
+TRUSTED_BASE = list(TRUSTED_BASE) + ['tools/tables/py2coq.py + t_src_filter.py: translator of make_key_regex_filter into Gallina (re.compile / search are parameters)']
